@@ -535,7 +535,7 @@ impl Workload for LoWorkload {
                                 }
                             })
                         };
-                        let missing_sig = format!("lo:true-base-reported-missing[planted-sites{}]", if c.sites.len() >= 5 { ">=5" } else { "<5" });
+                        let missing_sig = "lo:true-base-reported-missing".to_string();
                         let sig = if got.len() < exp.len() { "lo:isolated-snp-missed" } else if got.len() > exp.len() { "lo:spurious-or-duplicated-snp-column" } else if only_missing { missing_sig.as_str() } else { "lo:snp-column-with-wrong-bases" };
                         viol = Some((sig.into(), format!("{ctxs}: planted {} sites {:?}, lo reports {} columns {:?}", exp.len(), exp.iter().map(|x| String::from_utf8_lossy(x).to_string()).collect::<Vec<_>>(), got.len(), got.iter().map(|x| String::from_utf8_lossy(x).to_string()).collect::<Vec<_>>())));
                         break;
@@ -588,7 +588,7 @@ impl Workload for LoWorkload {
                             });
                             if consistent {
                                 viol = Some((
-                                    format!("lo:true-base-reported-missing[planted-sites{}]", if c.sites.len() >= 5 { ">=5" } else { "<5" }),
+                                    "lo:true-base-reported-missing".to_string(),
                                     format!("{ctxs}: record {line:?}: samples {dotted:?} are genotyped '.' although they carry {:?} (true allele set {:?})", dotted.iter().map(|s| truth(*s, x) as char).collect::<Vec<_>>(), true_set_all.iter().map(|b| *b as char).collect::<Vec<_>>()),
                                 ));
                                 break;
@@ -721,6 +721,39 @@ impl Workload for LoWorkload {
                     let _ = nrec;
                     probe("c18_indel_vcf_checked");
                 }
+            }
+        }
+        // A "true base reported missing" violation is attributed: if the same input is called
+        // completely with a larger path depth (-d 8), the cause is depth pruning in the graph
+        // traversal (the listed known finding); otherwise it is something else.
+        if let Some((sig, msg)) = &viol {
+            if sig.starts_with("lo:true-base-reported-missing") {
+                let mut a = vec!["lo".to_string(), "in.skf".into(), "deep".into(), "-m".into(), c.missing.clone(), "-d".into(), "8".into()];
+                if with_ref {
+                    a.push("-r".into());
+                    a.push("ref.fa".into());
+                }
+                let r = run_proc(dir, &c.base.proc(a), &mut log)?;
+                let complete = r.ok() && {
+                    if with_ref {
+                        let vcf = dir.read("deep_snps.vcf").unwrap_or_default();
+                        let recs: Vec<String> = String::from_utf8_lossy(&vcf).lines().filter(|l| !l.starts_with('#')).map(|l| l.to_string()).collect();
+                        recs.len() == c.sites.len() && recs.iter().all(|l| l.split('\t').skip(9).all(|g| g != "."))
+                    } else {
+                        match dir.read("deep_snps.fas").map(|f| parse_fasta(&f).and_then(|(_, s)| columns(&s))) {
+                            Some(Ok(cols)) => {
+                                let mut got: Vec<Vec<u8>> = cols.into_iter().map(canon_col).collect();
+                                got.sort();
+                                let mut exp: Vec<Vec<u8>> = c.sites.values().map(|s| canon_col(s.as_bytes().to_vec())).collect();
+                                exp.sort();
+                                got == exp
+                            }
+                            _ => false,
+                        }
+                    }
+                };
+                let tag = if complete { "gone-with--d-8" } else { "persists-with--d-8" };
+                viol = Some((format!("lo:true-base-reported-missing[{tag}]"), format!("{msg}; with -d 8 the calls are {}", if complete { "complete and exact" } else { "still wrong" })));
             }
         }
         if c.kind == "indel" && viol.is_none() && out.nontrivial {
